@@ -70,8 +70,7 @@ def classify(w, paths):
         return "kcd-merges-duplicate-signals"
     if all(p.startswith("/decode") for p in paths):
         return "%s-changes-decode" % w
-    last = re.sub(r"\[\d+\]", "", paths[0].split("/")[-1]) if paths else "state"
-    return "%s-mutates-%s" % (w, last)
+    return "%s-mutates-matrix" % w
 
 
 def intern_matrix(fields):
@@ -100,7 +99,7 @@ def encode_matrix(fields, ecu, sig):
         groups.append([ecu.setdefault(n, len(ecu) + 1) for n in f["transmitters"]])
         groups.append([ecu.setdefault(n, len(ecu) + 1) for n in f["receivers"]])
         for sn, rc in f["signals"]:
-            groups.append([sig[sn]] + [ecu.setdefault(n, len(ecu) + 1) for n in rc])
+            groups.append([sig.setdefault(sn, len(sig) + 1)] + [ecu.setdefault(n, len(ecu) + 1) for n in rc])
     return groups
 
 
@@ -170,6 +169,15 @@ def view_from_bytes(w, data, db):
 
 
 def eval_case(arg):
+    try:
+        return eval_case_(arg)
+    except Exception:       # a crash of the machinery on one case must not hide what the other cases found
+        import traceback
+        return dict(idx=arg[1], info=dict(profile="crash"), violations=[], counts={}, ties=[], pairs=0, nontrivial=False,
+                    rejected={}, crash=traceback.format_exc()[-1500:])
+
+
+def eval_case_(arg):
     base_seed, idx = arg
     C, F, tmp = _G["C"], _G["F"], _G["tmp"]
     db, info = K.build_case(base_seed, idx, C)
@@ -209,6 +217,7 @@ def eval_case(arg):
         state1 = K.state(d, base_seed, idx)
         if state1 != state0:
             df = matgen.diff(state0, state1)
+            df.sort(key=lambda t: t[0].startswith("/decode"))      # structural differences first
             key = classify(w, [p for p, _, _ in df])
             res["violations"].append(dict(key=key, what="%s export changed the caller's matrix" % w,
                                           input=dict(summary, writer=w), expected="state after == state before",
@@ -232,12 +241,42 @@ def eval_case(arg):
                 res["violations"].append(dict(key="%s-changes-later-export" % a,
                                               what="bytes(%s after %s on the same object) != bytes(%s alone)" % (b, a, b),
                                               input=dict(summary, first=a, second=b), expected="identical bytes", observed=obs))
+    # ---- a longer history of exports on one object: state unchanged, last export as if alone ----
+    import random
+    hrng = random.Random(base_seed * 31 + idx)
+    hist = [hrng.choice(sorted(alone)) for _ in range(hrng.randrange(3, 7))] if alone else []
+    hist_fields = None
+    if hist:
+        d = copy.deepcopy(db)
+        last = None
+        culprit = None      # the first export of the history after which the object differs
+        for w in hist:
+            last = K.try_export(F, d, w, tmp)
+            if culprit is None and K.state(d, base_seed, idx) != state0:
+                culprit = w
+        hist_fields = K.modelled_fields(d)
+        res["pairs"] += 1
+        cnt["history-len-%d" % len(hist)] += 1
+        if last != ("ok", alone[hist[-1]]) or culprit is not None:
+            res["violations"].append(dict(key=("%s-changes-later-export" % culprit) if culprit else "history-changes-bytes",
+                                          what="after the exports %s on one object the matrix or the last export's bytes differ from a "
+                                          "fresh copy's" % hist, input=dict(summary, history=hist, first_export_that_changed_the_object=culprit),
+                                          expected="state and bytes as for a fresh copy",
+                                          observed=[dict(path=p_, before=a_, after=b_) for p_, a_, b_ in matgen.diff(state0, K.state(d, base_seed, idx))[:4]]))
     # ---- tie data ----
     ecu, sig = intern_matrix(fields0)
     enc0 = encode_matrix(fields0, ecu, sig)
+    # which model is compared: the fixed code (copies = 1) unless the writer's defect is a recorded known finding, in which case the
+    # tree is expected to be the unfixed one and the model of the unfixed code (copies = 0) is the one that must agree
+    unfixed = _G.get("unfixed_writers", set())
+    flag = lambda w: 0 if w in unfixed else 1
+    touched = [w for w in hist if w in ("arxml", "fibex", "kcd")]
+    if hist and len({flag(w) for w in touched}) <= 1:
+        res["ties"].append(("history", core.fmt_case(1403, [[flag(touched[0]) if touched else 1] + [WCODE[w] for w in hist]] + enc0),
+                            encode_matrix(hist_fields, ecu, sig), dict(idx=idx, history=hist)))
     for w in alone:
         exp = encode_matrix(after_fields[w], ecu, sig)
-        res["ties"].append(("effect", core.fmt_case(1401, [[WCODE[w], 1]] + enc0), exp, dict(idx=idx, writer=w)))
+        res["ties"].append(("effect", core.fmt_case(1401, [[WCODE[w], flag(w)]] + enc0), exp, dict(idx=idx, writer=w, copies=flag(w))))
     rev = {v: k for k, v in ecu.items()}
     for w in ("arxml", "fibex", "kcd"):
         if w in alone:
@@ -266,11 +305,18 @@ def eval_case(arg):
             for s in f.signals:
                 if s.multiplex not in order:
                     order.append(s.multiplex)
+            symcmd = 1411
+            if "sym" in unfixed:
+                # unfixed writer: the blocks follow the iteration order of this very set in this very process (model cmd 1412)
+                order = list(set([a_.multiplex for a_ in f.signals]))
+                symcmd = 1412
+            else:
+                hrng.shuffle(order)      # any iteration order of the set: the model's answer must not depend on it
             sid = {s.name: i + 1 for i, s in enumerate(f.signals)}
             exp = [[b[2] if b[2] is not None else -1, int(b[1])] + [sid.get(n_, -1) for n_ in b[3]] for b in mine]
             og = [x for m in order for x in mux_code(m)]
             sg = [x for s in f.signals for x in [sid[s.name]] + mux_code(s.multiplex)]
-            res["ties"].append(("sym", core.fmt_case(1411, [og, sg]), exp if exp else [[]],
+            res["ties"].append(("sym", core.fmt_case(symcmd, [og, sg]), exp if exp else [[]],
                                 dict(idx=idx, frame=f.name, names=[b[0] for b in mine], expect_name=f.name)))
             cnt["sym-mux-frames"] += 1
     res["counts"] = dict(cnt)
@@ -311,7 +357,7 @@ def run(chk):
         per_key[key] += 1
         if key in known_keys or per_key[key] <= 3:
             chk.violation(key, what, input, expected, observed)
-    ncases = 2100 if thorough else 280
+    ncases = 3500 if thorough else 280
     hashseeds = [0, 1, 2, 3, 5, 7, 11, 4242] if thorough else [0, 1, 7]
     chk.rule = ("%d seeded matrices (profiles plain / rich / duplicate frame names / unpropagated receivers / both / many mux groups / all, "
                 "plus long names, free signals, cycle times, equal signal names in two frames) + %d hand-made corpus matrices; per matrix: 13 "
@@ -327,6 +373,13 @@ def run(chk):
     chk.extra["hash_seeds"] = hashseeds
     chk.extra["base_seed"] = base_seed
 
+    unfixed = set()
+    for w, keys in (("arxml", ("arxml-mutates-receivers",)), ("fibex", ("fibex-renames-duplicate-frames",)),
+                    ("kcd", ("kcd-merges-duplicate-frames", "kcd-merges-duplicate-signals")), ("sym", ("sym-hashseed-order",))):
+        if any(k in known_keys for k in keys):
+            unfixed.add(w)
+    _G["unfixed_writers"] = unfixed
+    chk.extra["model_compared"] = {w: ("unfixed code (known finding recorded)" if w in unfixed else "code with the C14 fix") for w in ("arxml", "fibex", "kcd", "sym")}
     _G["tmp_parent"] = tempfile.mkdtemp(prefix="c14_", dir="/tmp")       # xls goes through real files; removed below
     ctx = multiprocessing.get_context("fork")
     nworkers = max(2, core.NPROC - 2)
@@ -347,6 +400,10 @@ def run(chk):
     infos = {}
     for r in results:
         infos[r["idx"]] = r["info"]
+        if r.get("crash"):
+            chk.obligation_failures.append("harness crashed on case %d: %s" % (r["idx"], r["crash"].strip().splitlines()[-1]))
+            chk.build_log = r["crash"]
+            continue
         for k, v in r["counts"].items():
             chk.count(k, v)
         chk.evaluations += r["pairs"]
@@ -393,7 +450,7 @@ def run(chk):
                 by[h].append(s_)
             groups = sorted(by.values())
             obs = dict(hashseeds_by_output=groups)
-            if all(not h.startswith("REJ") for h in vals):
+            if all(not h.startswith("REJ") for h in vals) and per_key["%s-hashseed-order" % w] < 3:      # diagnosis for the first few
                 try:
                     x = bytes.fromhex(run_runner(groups[0][0], base_seed, 0, 0, ["--bytes", str(idx), w]).strip())
                     y = bytes.fromhex(run_runner(groups[1][0], base_seed, 0, 0, ["--bytes", str(idx), w]).strip())
@@ -408,6 +465,21 @@ def run(chk):
                                writer=w, profile=infos.get(idx, {}).get("profile"), bigmux=infos.get(idx, {}).get("bigmux")),
                           "identical bytes under all hash seeds", obs)
     chk.count("determinism-exports", ndet)
+    # xls: nothing time-dependent in the bytes (the separate processes above also ran at different times)
+    import time
+    cm = core.import_impl()
+    import canmatrix.formats as F
+    db, _ = K.build_case(base_seed, 1, cm.canmatrix)
+    tdir = tempfile.mkdtemp(prefix="c14_", dir="/tmp")
+    try:
+        x1 = K.try_export(F, copy.deepcopy(db), "xls", tdir)
+        time.sleep(2.2)
+        x2 = K.try_export(F, copy.deepcopy(db), "xls", tdir)
+    finally:
+        shutil.rmtree(tdir, ignore_errors=True)
+    chk.evaluations += 1
+    if x1 != x2:
+        violation("xls-time-dependent", "xls: two exports of the same matrix 2.2 s apart differ", dict(case=dict(base_seed=base_seed, idx=1)))
     chk.extra["failing_cases_by_key"] = dict(per_key)
     chk.extra["determinism"] = dict(exports_compared=ndet, hash_seeds=hashseeds, processes=len(futs), same_process_repeats=2)
 
@@ -445,7 +517,7 @@ def run(chk):
             elif got != exp:
                 bad[kind] += 1
                 chk.tie_break(kind, inf, got, exp)
-    chk.ties["correspondence"] = {"suite": "effect (1401), view from ARXML/FIBEX/KCD bytes (1402), SYM blocks (1411), isort (1413)",
+    chk.ties["correspondence"] = {"suite": "effect (1401), view from ARXML/FIBEX/KCD bytes (1402), export histories (1403), SYM blocks (1411), isort (1413)",
                                   "cases": dict(ncmp), "disagreements": dict(bad)}
     cand = [i for i, (k, _) in enumerate(meta) if k != "view" and len(lines[i]) < 1500]
     pick = rng.sample(cand, min(240, len(cand)))
